@@ -7,6 +7,7 @@
 //   <uci moves separated by blanks>
 // Generator only: RefereeTrace.tla recomputes where each game ends and how.
 #include "common.h"
+#include <unistd.h>
 
 namespace vh
 {
@@ -20,8 +21,11 @@ int cmd_scripted_engine(const Args& a)
     }
     size_t k = 0;
     std::string line;
+    // every command received is appended to <script>.<pid>.cmds (what the referee actually sends is part of its conformance)
+    FILE* log = a.has("log") ? fopen((a.s("log") + "." + std::to_string(getpid()) + ".cmds").c_str(), "w") : nullptr;
     while (std::getline(std::cin, line))
     {
+        if (log) { fprintf(log, "%s\n", line.c_str()); fflush(log); }
         std::istringstream is(line);
         std::string tok;
         is >> tok;
